@@ -123,6 +123,10 @@ func extractTimestamp(data any, tsProp string, timeUnit time.Duration) (time.Tim
 		warnUnplaceableTimestamp(tsProp)
 		return time.Time{}, false
 	}
+	if timeUnit > time.Second {
+		// TIMEUNIT='mi'|'hh'|'dd': ConvertIntToTime only knows s, ms, us and ns and would read the value as seconds
+		return time.Unix(timestampInt*int64(timeUnit/time.Second), 0), true
+	}
 	return cast.ConvertIntToTime(timestampInt, timeUnit), true
 }
 
